@@ -23,9 +23,12 @@ Definition sdirect (s : store) (p : str) : Prop :=
 Definition snolinkpar (s : store) (p : str) : Prop :=
   abs_cleaned p /\ Forall (snotlink s) (ancestors p).
 
-(** well-formed: the root is a directory; every entry is addressable *)
+(** permission words have 12 bits (rwx for user/group/other, setuid, setgid, sticky) *)
+Definition perm12 (n : node) : Prop := N.land (m_perm (node_meta n)) 4095 = m_perm (node_meta n).
+
+(** well-formed: the root is a directory; every entry is addressable; permission words are 12-bit *)
 Definition swf (s : store) : Prop :=
-  sdir s s_root /\ forall p n, s !! p = Some n -> sdirect s p.
+  sdir s s_root /\ forall p n, s !! p = Some n -> sdirect s p /\ perm12 n.
 
 (** * Equality up to what the properties exempt *)
 
